@@ -971,7 +971,7 @@ func (w *World) newVC(fn *ssa.Function, c *Contract) *FnVC {
 	}
 	name := ""
 	if fn != nil {
-		name = relName(fn.String(), pkgPath)
+		name = relName(nameOf(fn), pkgPath)
 		short := strings.TrimPrefix(strings.TrimPrefix(pkgPath, repoMod+"/"), "internal/")
 		name = short + "." + name
 	}
@@ -1680,7 +1680,7 @@ func (f *frame) scanCallMods(li *loopInfo, call ssa.CallInstruction) {
 				fn := vc.w.funcs[absName(n, vc.c.Pkg)]
 				var cc *Contract
 				if fn != nil {
-					cc = vc.w.contractOf(fn.String())
+					cc = vc.w.contractOf(nameOf(fn))
 				}
 				if fn == nil || cc == nil {
 					all = false
